@@ -189,6 +189,7 @@ type nodeOpts struct {
 	uid       string
 	mempool   bool  // boot a simnode (real mempool etc.) behind the queue
 	ltTimeout int64 // LtBlockPendTimeout in ms (0: chain33's default)
+	noValid   bool  // broadcast.disableValidation=true (consortium/private chain setting)
 	baseCtx   func(context.Context) context.Context
 }
 
@@ -252,6 +253,7 @@ func newNode(ctx *simrt.Ctx, o nodeOpts) *node {
 		types.MustDecode(raw, subCfg)
 	}
 	subCfg.Broadcast.LtBlockPendTimeout = o.ltTimeout
+	subCfg.Broadcast.DisableValidation = o.noValid
 	n.host = simnet.NewHost(selfIdx)
 	n.pinfo = simnet.NewPeerInfo()
 	n.cmgr = &simnet.ConnMgr{}
